@@ -132,7 +132,7 @@ func main() {
 	r.Set("evaluations", ev)
 	r.Set("traces_validated_against_impl", r.Int("window_histories")+r.Int("counter_queries_served")+r.Int("schedule_executions"))
 	r.Set("distinct_nontrivial", r.Int("window_histories_with_expiry")+r.Int("counter_nontrivial")+r.Int("schedule_distinct_states"))
-	r.Set("rule", fmt.Sprintf("(a) every sequence of exactly %d events over {Add(next distinct value), Get, Advance 25 s, Advance 35 s, Advance 61 s} (all shorter histories are its prefixes and are judged at every event), one execution each of the real NewStats/AddSample/Get with the real cleaner goroutine under the virtual clock, advanced in 1-second steps with the due tick delivered and the cleaner pass completed after each; the window content is judged after every event and every second against a list of (value, expiry): live <= reported <= live + expired-not-yet-passed, nothing never added, min/max/avg of Get = those of the content; failing histories are reduced to the minimal ones (no proper subsequence fails the same way). non-trivial = histories in which at least one sample expires (window_mixed_passes counts cleaner passes that must drop an expired sample while keeping a live one). Plus all interleavings within %d preemptions of {Add, Add, Get, cleaner with a due tick} in two set-ups. "+
+	r.Set("rule", fmt.Sprintf("(a) every sequence of exactly %d events over {Add(next distinct value), Get, Advance 25 s, Advance 35 s, Advance 61 s}, each run with three value sequences (1,2,3,..; -1,-2,-3,..; 0,20,-1,40,-2,..: all-negative windows and windows holding a genuine zero) (all shorter histories are its prefixes and are judged at every event), one execution each of the real NewStats/AddSample/Get with the real cleaner goroutine under the virtual clock, advanced in 1-second steps with the due tick delivered and the cleaner pass completed after each; the window content is judged after every event and every second against a list of (value, expiry): live <= reported <= live + expired-not-yet-passed, nothing never added, min/max/avg of Get = those of the content; failing histories are reduced to the minimal ones (no proper subsequence fails the same way). non-trivial = histories in which at least one sample expires (window_mixed_passes counts cleaner passes that must drop an expired sample while keeping a live one). Plus all interleavings within %d preemptions of {Add, Add, Get, cleaner with a due tick} in two set-ups. "+
 		"(b) %d names x %d types x %d clients x EDNS variants (+ an unpackable name), each served 5 times (cache off; cache off with failing writer; cache on first, second; cache on with failing writer) on each of CDB, RocksDB v1, RocksDB v2, plus a cache-expiry sequence under the virtual clock; counter deltas and logger calls judged against the wire form of the response written; non-trivial = served queries whose class is not REFUSED/nothing-sent. "+
 		"(c) all interleavings within %d preemptions of %d thread sets over IncrementCounter/IncrementCounterBy/ResetCounter(To)/AddSample/Get on the real metrics.Stats: counters and window snapshots linearizable (porcupine; counters and windows are two objects, Get reads them one after the other), sums, vector-clock race check on Stats.values/Stats.windows/slidingWindow.samples, deadlock, panic. states = history prefixes + distinct schedule state signatures.",
 		maxLen, bound, len(cNames), len(cTypes), len(cClients), bound, len(concScens)))
@@ -145,6 +145,16 @@ func main() {
 	}
 	clean()
 	r.Finish()
+}
+
+// seenKind reports whether fails already holds a failure of f's kind at the same event.
+func seenKind(fails []winFailure, f winFailure) bool {
+	for _, g := range fails {
+		if g.kind == f.kind && g.upto == f.upto {
+			return true
+		}
+	}
+	return false
 }
 
 // ---- (a) histories: one shard unit = all histories with a given 3-event prefix ----
@@ -166,7 +176,27 @@ func runWhistUnit(r *vlib.Run, unitIdx int) {
 		for i := histPrefixLen; i < maxLen; i++ {
 			h[i] = winAlphabet[digits[i]]
 		}
-		fails, info := runWindowHistory(h)
+		var fails []winFailure
+		var info histInfo
+		for vm := range valueMaps {
+			fs, inf := runWindowHistory(h, vm)
+			for _, f := range fs {
+				if vm > 0 {
+					if f.kind == "export-mismatch" || !seenKind(fails, f) {
+						f.kind += "@" + valueMaps[vm].name
+					} else {
+						continue // same verdict as with the default values
+					}
+				}
+				fails = append(fails, f)
+			}
+			info.observations += inf.observations
+			info.steps += inf.steps
+			info.gets += inf.gets
+			if vm == 0 {
+				info.dropPasses, info.mixedPasses = inf.dropPasses, inf.mixedPasses
+			}
+		}
 		nHist++
 		nObs += info.observations
 		nSteps += info.steps
